@@ -13,6 +13,7 @@ use serde_json::{json, Map};
 
 #[derive(Default)]
 struct Acc {
+    long: Vec<serde_json::Value>,
     cfgs: usize,
     scans: usize,
     nontrivial: usize,
@@ -78,6 +79,7 @@ fn run_cfg(acc: &mut Acc, cfg: &Cfg, ins: &[String], tables: &AtomTables, family
 }
 
 fn merge(a: &mut Acc, b: Acc) {
+    a.long.extend(b.long);
     a.cfgs += b.cfgs;
     a.scans += b.scans;
     a.nontrivial += b.nontrivial;
@@ -192,7 +194,7 @@ pub fn run(tier: Tier) -> ! {
             if let Some(d) = d {
                 acc.viol.add("", || Violation { key: String::new(), summary: format!("{name}: {d}"), replay: json!({"case": name, "configuration": cfg.to_json(), "input_bytes": input.len(), "input_prefix": input.chars().take(60).collect::<String>(), "disagreement": d, "calls": ["build_uncached()", "find_iter(input) to exhaustion"]}) });
             }
-            acc.samples.push(|| json!({"family": "long inputs", "case": name, "input_bytes": input.len(), "tokens": n}));
+            acc.long.push(json!({"case": name, "input_bytes": input.len(), "tokens_compared": n, "positions_with_competing_patterns": competed}));
         });
         for a in accs {
             merge(&mut total, a);
@@ -260,6 +262,7 @@ pub fn run(tier: Tier) -> ! {
     cov.insert("positions_with_competing_patterns".into(), json!(total.stats.competed));
     cov.insert("skipped_characters".into(), json!(total.stats.skipped));
     cov.insert("distinct_outcome_signatures".into(), json!(total.outcomes.len()));
+    cov.insert("long_input_cases".into(), json!(total.long));
     cov.insert("families".into(), json!(families));
     cov.insert("disagreeing_configurations".into(), json!(n_disagreeing));
     run.finish(
